@@ -35,8 +35,34 @@ func c09CanaryGen(P *Prog) map[string]string {
 	if mu == "" || P.Func("cache", "Cache", "Has") == nil {
 		return nil
 	}
-	c09Names.mu, c09Names.size, c09Names.count, c09Names.onEvict = mu, size.Name(), count.Name(), onEvict.Name()
-	r := strings.NewReplacer("μ", mu, "c.size", "c."+size.Name(), "c.count", "c."+count.Name(), "c.onEvict", "c."+onEvict.Name())
+	// selector path from a Cache value to a (possibly nested) field
+	var pathTo func(n *types.Named, target *types.Var, depth int) (string, bool)
+	pathTo = func(n *types.Named, target *types.Var, depth int) (string, bool) {
+		st, ok := n.Underlying().(*types.Struct)
+		if !ok || depth > 3 {
+			return "", false
+		}
+		for i := 0; i < st.NumFields(); i++ {
+			f := st.Field(i)
+			if sameField(f, target) {
+				return f.Name(), true
+			}
+			if inner, ok := f.Type().(*types.Named); ok && inner.Obj().Pkg() == n.Obj().Pkg() {
+				if p, ok := pathTo(inner, target, depth+1); ok {
+					return f.Name() + "." + p, true
+				}
+			}
+		}
+		return "", false
+	}
+	sizeP, ok1 := pathTo(ct, size, 0)
+	countP, ok2 := pathTo(ct, count, 0)
+	evictP, ok3 := pathTo(ct, onEvict, 0)
+	if !ok1 || !ok2 || !ok3 {
+		return nil
+	}
+	c09Names.mu, c09Names.size, c09Names.count, c09Names.onEvict = mu, sizeP, countP, evictP
+	r := strings.NewReplacer("μ", mu, "c.size", "c."+sizeP, "c.count", "c."+countP, "c.onEvict", "c."+evictP)
 	return map[string]string{"cache": r.Replace(c09Canary)}
 }
 
@@ -118,10 +144,33 @@ type guardedEvent struct {
 }
 
 // eventsOf enumerates guarded events and lock operations of fn on Cache values.
+// rootedAtCache: v is a Cache value/pointer, or a (nested) struct field of one held by value.
+func (m *cacheModel) rootedAtCache(v ssa.Value, depth int) bool {
+	if isNamedOrigin(v.Type(), m.cacheT) {
+		return true
+	}
+	if depth > 3 {
+		return false
+	}
+	switch x := v.(type) {
+	case *ssa.FieldAddr:
+		return m.rootedAtCache(x.X, depth+1)
+	case *ssa.Field:
+		return m.rootedAtCache(x.X, depth+1)
+	case *ssa.UnOp:
+		if x.Op == token.MUL {
+			if fa, ok := x.X.(*ssa.FieldAddr); ok {
+				return m.rootedAtCache(fa.X, depth+1)
+			}
+		}
+	}
+	return false
+}
+
 func (m *cacheModel) guardedEventOf(in ssa.Instruction) (string, bool) {
 	switch x := in.(type) {
 	case *ssa.FieldAddr:
-		if !isNamedOrigin(x.X.Type(), m.cacheT) {
+		if !m.rootedAtCache(x.X, 0) {
 			return "", false
 		}
 		_, f := fieldVarOf(x)
@@ -129,7 +178,7 @@ func (m *cacheModel) guardedEventOf(in ssa.Instruction) (string, bool) {
 			return "access field " + n, true
 		}
 	case *ssa.Field:
-		if !isNamedOrigin(x.X.Type(), m.cacheT) {
+		if !m.rootedAtCache(x.X, 0) {
 			return "", false
 		}
 		_, f := fieldVarOf(x)
@@ -144,8 +193,8 @@ func (m *cacheModel) guardedEventOf(in ssa.Instruction) (string, bool) {
 			}
 			return "", false
 		}
-		// call of a value loaded from a callback field
-		if _, f := loadedField(c.Value); f != nil {
+		// call of a value loaded from a callback field of the cache
+		if base, f := loadedField(c.Value); f != nil && m.rootedAtCache(base, 0) {
 			if n, ok := m.callbacks[f.Origin()]; ok {
 				return "call callback " + n, true
 			}
@@ -316,8 +365,13 @@ func (m *cacheModel) analyseLocks(fn *ssa.Function, entryLocked bool) *fnLockRes
 				if !b.Dominates(res.lockPos.Block()) {
 					continue
 				}
-				switch ins.(type) {
-				case *ssa.Store, ssa.CallInstruction, *ssa.MapUpdate:
+				switch x := ins.(type) {
+				case *ssa.Store:
+					if _, local := x.Addr.(*ssa.Alloc); local {
+						continue // a local variable (incl. the synthetic state of a range-over-func loop)
+					}
+					res.preLock = append(res.preLock, ins)
+				case ssa.CallInstruction, *ssa.MapUpdate:
 					res.preLock = append(res.preLock, ins)
 				}
 			}
@@ -338,7 +392,7 @@ func runC09(c *Ctx) {
 	c.rule("R-LOCK-WHOLE", 5, "each exported Cache method: exactly one Lock, nothing effectful before it, exactly one deferred Unlock, no explicit Unlock, no return with the lock held")
 	c.rule("R-LOCK-WHO", 1, "guarded fields are touched only inside lock-analysed functions or on the fresh allocation in New")
 	c.rule("R-LOCK-REENTRY", 5, "no call made while Locked reaches a Lock of a Cache mutex through the call graph (static callees + CHA on repository types)")
-	c.rule("R-SETONCE", 3, "sizeOf, onEvict and limit are stored only on the fresh allocation in the constructor")
+	c.rule("R-SETONCE", 1, "sizeOf, onEvict and limit (or the settings struct holding them) are stored only on the fresh allocation in the constructor")
 	c.rule("R-NO-GO", 1, "no go statement, channel operation or select in package cache")
 	c.rule("R-STORE-PRIVATE", 3, "lruStore is allocated only in LRU, its fields are touched only by its own methods and LRU's closure, and its methods are never called statically from outside")
 
@@ -350,8 +404,9 @@ func runC09(c *Ctx) {
 		return
 	}
 	st := m.cacheT.Underlying().(*types.Struct)
-	for i := 0; i < st.NumFields(); i++ {
-		f := st.Field(i)
+	var classify func(f *types.Var, prefix string, depth int)
+	classify = func(f *types.Var, prefix string, depth int) {
+		f = f.Origin() // fields of an instantiated nested struct: key by the generic declaration
 		ts := f.Type().String()
 		switch {
 		case ts == "sync.Mutex" || ts == "sync.RWMutex":
@@ -361,12 +416,25 @@ func runC09(c *Ctx) {
 			m.mu = f
 		default:
 			if _, isFunc := f.Type().Underlying().(*types.Signature); isFunc {
-				m.callbacks[f] = f.Name()
-				m.setOnce[f] = f.Name()
-			} else {
-				m.guarded[f] = f.Name()
+				m.callbacks[f] = prefix + f.Name()
+				m.setOnce[f] = prefix + f.Name()
+				return
 			}
+			// a struct of the same package held by value (e.g. the normalised Config): its fields are the state
+			if n, ok := f.Type().(*types.Named); ok && depth < 2 && n.Obj().Pkg() == m.cacheT.Obj().Pkg() {
+				if inner, ok := n.Underlying().(*types.Struct); ok {
+					m.setOnce[f] = prefix + f.Name() // replaced as a whole only at construction
+					for j := 0; j < inner.NumFields(); j++ {
+						classify(inner.Field(j), prefix+f.Name()+".", depth+1)
+					}
+					return
+				}
+			}
+			m.guarded[f] = prefix + f.Name()
 		}
+	}
+	for i := 0; i < st.NumFields(); i++ {
+		classify(st.Field(i), "", 0)
 	}
 	if m.mu == nil {
 		c.undecided("ANCHOR", "cache.Cache:mutex", 0, "no mutex field found in Cache")
@@ -415,11 +483,130 @@ func runC09(c *Ctx) {
 			entryLocked[fn] = true
 		}
 	}
+	// Closures run where they are invoked: directly, by the callee they are handed to (a lock wrapper such as
+	// withLock(func(){…}), a range-over-func iterator), or — when their creator returns them — by whoever calls
+	// the creator's result.  A closure is entered with the lock held iff every such site is in state Locked.
+	type invSite struct {
+		fn *ssa.Function
+		ci ssa.CallInstruction
+	}
+	closureSites := map[*ssa.Function][]invSite{}
+	analysed := map[*ssa.Function]bool{}
+	for _, fn := range fns {
+		if fn.Blocks != nil {
+			analysed[fn] = true // every function: the callers of a helper decide whether it is entered with the lock held
+		}
+	}
+	for cl := range touches {
+		par := cl.Parent()
+		if par == nil {
+			continue
+		}
+		var sites []invSite
+		escaped := false
+		allInstrs(par, func(in ssa.Instruction) {
+			mc, ok := in.(*ssa.MakeClosure)
+			if !ok || mc.Fn != ssa.Value(cl) {
+				return
+			}
+			// uses of the closure value, through conversions to a named function type (iter.Seq)
+			var uses []ssa.Instruction
+			vals := map[ssa.Value]bool{mc: true}
+			var collect func(v ssa.Value, d int)
+			collect = func(v ssa.Value, d int) {
+				for _, r := range referrersOf(v) {
+					if ct, ok := r.(*ssa.ChangeType); ok && d < 3 {
+						vals[ct] = true
+						collect(ct, d+1)
+						continue
+					}
+					uses = append(uses, r)
+				}
+			}
+			collect(mc, 0)
+			for _, r := range uses {
+				switch x := r.(type) {
+				case ssa.CallInstruction:
+					cc := x.Common()
+					if vals[cc.Value] {
+						sites = append(sites, invSite{par, x})
+						continue
+					}
+					handed := false
+					for ai, a := range cc.Args {
+						if !vals[a] {
+							continue
+						}
+						handed = true
+						h := staticCallee(cc)
+						if h != nil && h.Blocks != nil && h.Pkg == origin(par).Pkg && ai < len(h.Params) {
+							// a package function: the closure runs where that function calls its parameter
+							p := h.Params[ai]
+							onlyCalled := true
+							for _, r2 := range referrersOf(p) {
+								ci2, isCall := r2.(ssa.CallInstruction)
+								if isCall && ci2.Common().Value == ssa.Value(p) {
+									sites = append(sites, invSite{h, ci2})
+								} else if _, dbg := r2.(*ssa.DebugRef); !dbg {
+									onlyCalled = false
+								}
+							}
+							if !onlyCalled {
+								escaped = true
+							}
+						} else {
+							// a function value (iterator) or a library routine: it calls the closure while it runs
+							sites = append(sites, invSite{par, x})
+						}
+					}
+					if !handed {
+						escaped = true
+					}
+				case *ssa.Return:
+					// returned: whoever calls the creator's result invokes it
+					for _, f2 := range fns {
+						allInstrs(f2, func(in2 ssa.Instruction) {
+							ci2, ok := in2.(ssa.CallInstruction)
+							if !ok {
+								return
+							}
+							if inner, ok := ci2.Common().Value.(*ssa.Call); ok && origin(staticCallee(&inner.Call)) == origin(par) {
+								sites = append(sites, invSite{f2, ci2})
+							}
+						})
+					}
+				case *ssa.DebugRef:
+				default:
+					escaped = true
+				}
+			}
+		})
+		if !escaped && len(sites) > 0 {
+			closureSites[cl] = sites
+			entryLocked[cl] = true
+			for _, st := range sites {
+				analysed[st.fn] = true
+			}
+		}
+	}
 	results := map[*ssa.Function]*fnLockResult{}
 	for iter := 0; iter < 8; iter++ {
 		changed := false
-		for fn := range touches {
+		for fn := range analysed {
 			results[fn] = m.analyseLocks(fn, entryLocked[fn])
+		}
+		for cl, sites := range closureSites {
+			if !entryLocked[cl] {
+				continue
+			}
+			for _, st := range sites {
+				r := results[st.fn]
+				if r == nil || r.callStates[st.ci] != lsLocked {
+					entryLocked[cl] = false
+					changed = true
+					break
+				}
+			}
 		}
 		for fn, r := range results {
 			_ = fn
@@ -524,9 +711,7 @@ func runC09(c *Ctx) {
 		if entryLocked[fn] {
 			c.judge(!hasLockOps, "R-LOCK-WHOLE", name+":helper", fn.Pos(), "helper called only under the lock; performs no lock operations", "helper entered with the lock held performs lock operations")
 		} else {
-			if isCacheMethod(fn) {
-				methodsSeen++
-			}
+
 			var probs []string
 			if r.nLock != 1 {
 				probs = append(probs, fmt.Sprintf("%d Lock calls (want exactly 1)", r.nLock))
@@ -579,6 +764,11 @@ func runC09(c *Ctx) {
 		c.judge(len(badCalls) == 0, "R-LOCK-REENTRY", name, fn.Pos(), fmt.Sprintf("%d calls under the lock, none can reach a Cache Lock", nCalls),
 			"call under the lock can re-acquire μ (self-deadlock / broken section): "+fmt.Sprint(badCalls))
 	}
+	for _, fn := range fns {
+		if isCacheMethod(fn) && exported(fn) && mayLock(fn) {
+			methodsSeen++
+		}
+	}
 	if methodsSeen < 5 {
 		c.bad("FLOOR", "cache.Cache methods", 0, fmt.Sprintf("only %d locking Cache methods found, 7 confirmed by hand (floor 5)", methodsSeen))
 	}
@@ -591,7 +781,7 @@ func runC09(c *Ctx) {
 				return
 			}
 			fa, ok := s.Addr.(*ssa.FieldAddr)
-			if !ok || !isNamedOrigin(fa.X.Type(), m.cacheT) {
+			if !ok || !m.rootedAtCache(fa.X, 0) {
 				return
 			}
 			_, f := fieldVarOf(fa)
@@ -599,7 +789,13 @@ func runC09(c *Ctx) {
 			if !ok {
 				return
 			}
-			_, isAlloc := fa.X.(*ssa.Alloc)
+			root := fa.X
+			for i := 0; i < 3; i++ {
+				if inner, ok := root.(*ssa.FieldAddr); ok {
+					root = inner.X
+				}
+			}
+			_, isAlloc := root.(*ssa.Alloc)
 			c.judge(isAlloc && origin(fn) == newFn, "R-SETONCE", fnName(fn)+":store "+n, instrPos(in),
 				"stored on the fresh allocation in New", "set-once field written outside the constructor's fresh allocation")
 		})
